@@ -208,6 +208,7 @@ type stormImpl struct {
 	mu   sync.Mutex
 	seen map[string]int
 	h    pong.PingPongSignalHelper
+	slow time.Duration // every call takes this long: the queues in front of the object fill up
 }
 
 func (p *stormImpl) Activate(a bus.Activation, h pong.PingPongSignalHelper) error { p.h = h; return nil }
@@ -216,6 +217,9 @@ func (p *stormImpl) Hello(a string) (string, error) {
 	p.mu.Lock()
 	p.seen[a]++
 	p.mu.Unlock()
+	if p.slow > 0 {
+		time.Sleep(p.slow)
+	}
 	if len(a)%3 == 0 {
 		time.Sleep(time.Duration(len(a)%5) * 100 * time.Microsecond) // let replies cross
 	}
@@ -239,6 +243,12 @@ func c04Storm(a []string) string {
 	}
 	defer dsrv.Terminate()
 	impl := &stormImpl{seen: map[string]int{}}
+	if strings.HasSuffix(mode, "-slow") {
+		// a busy object and many callers: more calls in flight than mailbox and handler queue hold; the
+		// surplus is refused ("consumer blocked"), every call still gets exactly one outcome
+		mode = strings.TrimSuffix(mode, "-slow")
+		impl.slow = 2 * time.Millisecond
+	}
 	if _, err := dsrv.NewService("Storm", pong.PingPongObject(impl)); err != nil {
 		return "setup-error:" + err.Error()
 	}
@@ -539,7 +549,8 @@ func runC04(r *Rand, tier string, o *Out) {
 		o.Do("P", "cl.close", false)
 	}
 	// (c) storms
-	cases := [][3]interface{}{{"same", 8, 20}, {"session", 8, 20}, {"cache", 8, 20}, {"conns", 6, 10}, {"cache", 2, 50}, {"same", 16, 10}}
+	cases := [][3]interface{}{{"same", 8, 20}, {"session", 8, 20}, {"cache", 8, 20}, {"conns", 6, 10}, {"cache", 2, 50}, {"same", 16, 10},
+		{"same-slow", 48, 4}, {"conns-slow", 24, 3}}
 	if tier == "thorough" {
 		cases = append(cases, [][3]interface{}{{"cache", 16, 40}, {"session", 16, 40}, {"same", 32, 20}, {"conns", 12, 20}, {"cache", 4, 200}, {"cache", 32, 10}}...)
 	}
